@@ -39,6 +39,9 @@ def check(ctx):
     ctx.attempt(_selection)
     ctx.attempt(_mro_calls)
     ctx.attempt(forward.check_all, module_suffixes=('containers.containers', 'plssdesc.plssdesc'))
+    ctx.attempt(common.no_dedup_on_insert, [f for f in ctx.repo.funcs.values() if f.module.name.endswith('containers.containers')])
+    from .c12 import error_undef_tables      # filter_errors() relies on is_error / is_undef
+    ctx.attempt(error_undef_tables)
     ctx.attempt(common.clause_purity, [f for f in ctx.repo.funcs.values() if f.module.name.endswith(('trs.trs','containers.containers'))])
     ctx.attempt(common.parallel_shapes, [f for f in ctx.repo.funcs.values() if f.module.name.endswith(('trs.trs','containers.containers'))])
     ctx.attempt(common.outparam_truthiness, [f for f in ctx.repo.funcs.values() if f.module.name.endswith('containers.containers')])
@@ -175,15 +178,21 @@ def _verifiers(ctx):
               '_verify_iterable: no continue/break in the element loop',
               detail_bad="elements can be skipped", key="SINK|_verify_iterable|skip")
     # shortcut only for the container's own class
-    short = [n for n in vi.node.body if isinstance(n, ast.If) and 'isinstance(iterable' in norm(n.test)
-             and any('into.extend(iterable)' == norm(s) for s in n.body)]
-    for s in short:
-        c = s.test
-        ok = isinstance(c, ast.Call) and len(c.args) == 2 and norm(c.args[1]) == 'cls'
-        ctx.check(ok, 'SINK', "_verify_iterable: unverified bulk copy only from the same container class",
-                  detail_bad=f"`{norm(c)}`: other container types are inserted as-is, skipping the "
-                             f"per-element conversion (e.g. Tract objects inside a TRSList)",
-                  key="SINK|_verify_iterable|shortcut", where=common.loc(vi, s))
+    # (any bulk add of what came in that does not go through _verify_individual)
+    bulk = [c for c in walk_local(vi.node) if isinstance(c, ast.Call) and isinstance(c.func, ast.Attribute)
+            and c.func.attr == 'extend' and c.args
+            and any(isinstance(x, ast.Name) and x.id == 'iterable' for x in ast.walk(c.args[0]))
+            and '_verify_individual' not in norm(c.args[0])]
+    for c_ in bulk:
+        tests = [e for e, txt, pol in literals(guards(c_)) if pol and isinstance(e, ast.Call) and dotted(e.func) == 'isinstance'
+                 and e.args and norm(e.args[0]) == 'iterable']
+        same = [e for e in tests if len(e.args) == 2 and norm(e.args[1]) in ('cls', 'type(self)', 'self.__class__')]
+        ctx.tri(bool(same), bool(tests) and not same or not tests, 'SINK',
+                "_verify_iterable: unverified bulk copy only from the same container class",
+                detail_bad=f"`{norm(c_)}` under `{norm(tests[0]) if tests else 'no type test'}`: other container types are inserted "
+                           f"as-is, skipping the per-element conversion (e.g. Tract objects inside a TRSList, TRS objects "
+                           f"inside a TractList)",
+                key="SINK|_verify_iterable|shortcut", where=common.loc(vi, c_))
     t = ' '.join(norm(s) for s in walk_local(vi.node) if isinstance(s, ast.stmt))
     ctx.shape("isinstance(iterable, str)" in t and 'raise TypeError' in t, 'SINK',
               '_verify_iterable rejects a bare str')
